@@ -79,7 +79,20 @@ def keys(params):
         ev.resulting_metric_keys.append("junk")
         if list(ev.resulting_metric_keys) != before:
             bad.append("mutating the returned key list changes the evaluator's advertised keys")
-    return {"violated": bool(bad), "problems": bad, "witness_class": WC_D4 if bad else None}
+    # the advertised keys do not depend on what the evaluator was used for BEFORE they were first asked for
+    ref_keys = list(_mk("MATCHED_INSTANCE", False).resulting_metric_keys)
+    a = np.array([0, 1, 1, 2, 2, 0], np.uint8)
+    for first in ({"result_all": False}, {"empty_pred": True}, {}):
+        ev2 = _mk("MATCHED_INSTANCE", False)
+        try:
+            ev2.evaluate(np.zeros_like(a) if first.get("empty_pred") else a.copy(), a.copy(), result_all=first.get("result_all", True), verbose=False)
+        except Exception as e:
+            bad.append(f"evaluate raised {type(e).__name__}: {e}"[:120])
+        k2 = list(ev2.resulting_metric_keys)
+        if k2 != ref_keys:
+            bad.append(f"resulting_metric_keys depends on the first call ({first}): {len(k2)} keys instead of {len(ref_keys)}; missing {[k for k in ref_keys if k not in k2][:5]}")
+    wc = WC_D4 if bad and all("gained" in b or "mutating" in b for b in bad) else None
+    return {"violated": bool(bad), "problems": bad[:4], "witness_class": wc}
 
 
 def bounded(params):
@@ -154,6 +167,10 @@ def bounded(params):
             cfg1 = os.path.join(d, "cfg1.yaml"); ev.save_to_config(cfg1)
             if open(cfg1).read() != cfg_text0 and len(failures) < 8:
                 failures.append({"input": {"history": h}, "problems": ["saved configuration changed through use"], "replay_kind": "c15.history"})
+    kr = keys({})
+    evals += 1
+    for pb in kr["problems"][:2]:
+        failures.append({"input": {"case": "advertised metric keys"}, "problems": [pb], "witness_class": kr.get("witness_class"), "replay_kind": "c15.keys"})
     F.Pool, E.Pool = real_pools
     return {"evaluations": evals, "distinct_nontrivial": nontriv, "failures": failures[:6],
             "rule": "seeded histories of evaluate() calls on shared evaluators interleaved with construction of evaluators and aggregators, random per-call/constructor options, 4 inputs x 3 input types x grouped/ungrouped; every result compared with a fresh evaluator's; keys and saved config compared before/after; real Pool vs serial shim",
